@@ -155,6 +155,25 @@ def TRUE():
     return True
 
 
+def raised_in_repo(exc):
+    """True if the exception was raised by code of /repo (or code cut from its source), not by harness code"""
+    import os
+    tb = exc.__traceback__
+    last = None
+    while tb is not None:
+        last = tb.tb_frame.f_code.co_filename
+        tb = tb.tb_next
+    if last is None:
+        return False
+    from . import core
+    if last.startswith('<repo:'):
+        return True
+    rp = os.path.realpath(last)
+    if rp.startswith(os.path.realpath(core.VERIF) + os.sep):
+        return False
+    return rp.startswith(os.path.realpath(core.REPO) + os.sep) or ('site-packages' in rp) or rp.startswith('<')
+
+
 class Raised:
     """returned by a harness to say: the real code raised this exception (a result, not an error)"""
 
@@ -184,6 +203,10 @@ def run(hname, fn, timeout_ms=10000, max_paths=4000, region=None, expect_exc=(),
             claims = path.out
             if path.exc is not None:
                 if isinstance(path.exc, tuple(expect_exc)):
+                    continue
+                if not raised_in_repo(path.exc):
+                    res.append(dict(kind='error', msg=f'{hname}: harness code raised {type(path.exc).__name__}: {path.exc} | '
+                                    + traceback.format_exception(path.exc)[-2][:300]))
                     continue
                 claims = [('no exception', False, repr(path.exc)[:200])]
             pending = []
@@ -252,7 +275,7 @@ def _replay(fn, mdl, cname):
     except pysym.Infeasible:
         return False, {'why': 'infeasible', 'inputs': I.used}
     except Exception as e:
-        if cname == 'no exception':
+        if cname == 'no exception' and raised_in_repo(e):
             return True, {'inputs': I.used, 'detail': f'real code raises {type(e).__name__}: {e}'}
         return False, {'why': f'replay raised {type(e).__name__}: {e}', 'inputs': I.used,
                        'tb': traceback.format_exc()[-500:]}
